@@ -770,6 +770,7 @@ func preNormalise(orig, cur *packages.Package, base map[string][]byte, rep *inli
 		nz.flattenStructParams()
 		nz.monomorphise()
 		nz.swapThinWrappers()
+		nz.stubMethodCalls()
 		for _, f := range cur.Syntax {
 			nz.unrollIn(f)
 			nz.containsIn(f)
@@ -777,6 +778,8 @@ func preNormalise(orig, cur *packages.Package, base map[string][]byte, rep *inli
 		for _, f := range cur.Syntax {
 			nz.containsLoopsIn(f)
 			nz.omapIteratorsIn(f)
+			nz.stdIteratorsIn(f)
+			nz.cmpOrIn(f)
 			nz.etaExpandIn(f)
 			nz.sinkDefersIn(f)
 			nz.localRefsIn(f)
@@ -1201,6 +1204,7 @@ func (nz *normaliser) sroaFunc(f *ast.File, body *ast.BlockStmt, qual types.Qual
 		from  *types.Var        // whole copy of another candidate, or nil
 		decl  ast.Stmt
 		names []*ast.Ident
+		ptr   bool // a pointer to a struct literal: copies of the pointer share the fields
 	}
 	cands := map[*types.Var]*cand{}
 	// definitions
@@ -1236,10 +1240,31 @@ func (nz *normaliser) sroaFunc(f *ast.File, body *ast.BlockStmt, qual types.Qual
 			return true
 		}
 		stT, ok := v.Type().Underlying().(*types.Struct)
+		isPtr := false
+		if !ok {
+			// `lr := &lineRedactor{out: w, bar: bar}` used through its fields only (and through
+			// copies of the pointer): the fields are shared by every copy
+			if pt, isP := v.Type().Underlying().(*types.Pointer); isP {
+				if ps, isS := pt.Elem().Underlying().(*types.Struct); isS {
+					stT, ok, isPtr = ps, true, true
+				}
+			}
+		}
 		if !ok || stT.NumFields() == 0 || stT.NumFields() > 40 {
 			return true
 		}
-		c := &cand{v: v, st: stT, decl: st}
+		c := &cand{v: v, st: stT, decl: st, ptr: isPtr}
+		if isPtr {
+			if u, isU := val.(*ast.UnaryExpr); isU && u.Op == token.AND {
+				if cl, isCL := u.X.(*ast.CompositeLit); isCL {
+					val = cl
+				} else {
+					return true
+				}
+			} else if _, isId := val.(*ast.Ident); !isId {
+				return true
+			}
+		}
 		switch e := val.(type) {
 		case *ast.CompositeLit:
 			c.lit = e
@@ -1315,7 +1340,7 @@ func (nz *normaliser) sroaFunc(f *ast.File, body *ast.BlockStmt, qual types.Qual
 			return true
 		})
 		for v, c := range cands {
-			if c.from != nil && cands[c.from] == nil {
+			if c.from != nil && (cands[c.from] == nil || cands[c.from].ptr != c.ptr) {
 				delete(cands, v)
 				changed = true
 			}
@@ -1336,7 +1361,13 @@ func (nz *normaliser) sroaFunc(f *ast.File, body *ast.BlockStmt, qual types.Qual
 		ids[v] = nz.n*100 + i
 	}
 	nz.n++
-	fname = func(v *types.Var, field string) string { return fmt.Sprintf("_sr%d_%s_%s", ids[v], v.Name(), field) }
+	fname = func(v *types.Var, field string) string {
+		// copies of a pointer name the fields of the object the first pointer was made for
+		for d := 0; d < 32 && cands[v] != nil && cands[v].ptr && cands[v].from != nil; d++ {
+			v = cands[v].from
+		}
+		return fmt.Sprintf("_sr%d_%s_%s", ids[v], v.Name(), field)
+	}
 	failed := false
 	// rewrite
 	astutil.Apply(body, func(c *astutil.Cursor) bool {
@@ -1368,6 +1399,11 @@ func (nz *normaliser) sroaFunc(f *ast.File, body *ast.BlockStmt, qual types.Qual
 				return true
 			}
 			var list []ast.Stmt
+			if cd.ptr && cd.from != nil {
+				// a copy of the pointer: nothing to declare
+				nz.splice[x.(ast.Stmt)] = []ast.Stmt{&ast.EmptyStmt{}}
+				return false
+			}
 			given := map[string]ast.Expr{}
 			var litOrder []string
 			if cd.lit != nil {
